@@ -1,11 +1,12 @@
 //@unit retry
-//@props C10 C17 C08 C01
+//@props C10 C17 C08 C01 C15
 // U-retry: the forward-reference retry loop `process_tags` (src/transform.rs).
 // Every call of Tag::generate_events appends one ghost step Gen(tag, outcome) to the context.
 // Proved: the loop terminates; on Ok every tag of the list has a successful step (no failing tag is
 // ever dropped) unless inside <specs>; a pass without progress is an error; a limit error is final;
 // the builder receives exactly the boxes of the successful steps.
 //@assume Tag::generate_events preserves in_specs (scope_frame, proved for the scoping generators in U-scope) and records exactly one ghost step
+//@assume the tags handed to process_tags carry pairwise distinct order indices (process_events: `.enumerate().map(|(idx, el)| (OrderIndex::new(idx), ..))`, abstracted in U-passthru as tagify_indexed); the variable bindings are an abstract ghost value `bind` which generate_events may change and update_element does not
 //@assume R-itermut-ro: `for (idx, t) in &mut tags.iter_mut()` is read as `tags.iter()`: the body uses `t` only through `&self` methods (get_element, generate_events, clone)
 use vstd::prelude::*;
 use std::mem;
@@ -45,7 +46,9 @@ pub open spec fn is_limit(e: SvgdxError) -> bool {
 pub enum Outcome { Done(Option<BoundingBox>), LimitErr, OtherErr }
 pub struct Gen { pub tag: Tag, pub outcome: Outcome }
 /// ghost: `tr` = generate_events calls in order; `registered` = elements passed to update_element, in order
-pub struct TransformerContext { pub in_specs: bool, pub tr: Ghost<Seq<Gen>>, pub registered: Ghost<Seq<SvgElement>>, pub rest: CtxRest }
+/// ghost: `bind` = the variable bindings in force (the scope stack's content), abstract
+#[verifier::external_body] pub struct Bind { _p: u8 }
+pub struct TransformerContext { pub in_specs: bool, pub tr: Ghost<Seq<Gen>>, pub registered: Ghost<Seq<SvgElement>>, pub bind: Ghost<Bind>, pub rest: CtxRest }
 pub uninterp spec fn tag_el(t: Tag) -> Option<SvgElement>;
 
 pub uninterp spec fn union_spec(s: Seq<BoundingBox>) -> Option<BoundingBox>;
@@ -68,7 +71,7 @@ impl Tag {
 impl TransformerContext {
     #[verifier::external_body]
     pub fn update_element(&mut self, el: &SvgElement)
-        ensures final(self).in_specs == old(self).in_specs, final(self).tr == old(self).tr, final(self).registered@ == old(self).registered@.push(*el)
+        ensures final(self).in_specs == old(self).in_specs, final(self).tr == old(self).tr, final(self).registered@ == old(self).registered@.push(*el), final(self).bind == old(self).bind
     { unimplemented!() }
 }
 impl OutputList { #[verifier::external_body] pub fn is_empty(&self) -> bool { unimplemented!() } }
@@ -107,6 +110,10 @@ pub open spec fn pending_covers(orig: Seq<(OrderIndex, Tag)>, pending: Seq<(Orde
         succeeded(tr, from, (#[trigger] orig[i]).1) || exists|j: int| 0 <= j < pending.len() && (#[trigger] pending[j]).1 == orig[i].1
 }
 
+/// every entry of the list carries its own order index (process_events numbers the tags 0, 1, 2, ...)
+pub open spec fn distinct_idx(tags: Seq<(OrderIndex, Tag)>) -> bool {
+    forall|i: int, j: int| 0 <= i < j < tags.len() ==> (#[trigger] tags[i]).0 != (#[trigger] tags[j]).0
+}
 /// the retry loop gave up because a COMPLETE pass over everything still pending made no progress:
 /// from some point k on, no step succeeded, and every tag that never succeeded was tried after k
 pub open spec fn stalled(orig: Seq<(OrderIndex, Tag)>, tr: Seq<Gen>, from: int) -> bool {
@@ -175,9 +182,14 @@ pub proof fn lemma_no_limit_push(tr: Seq<Gen>, g: Gen, from: int)
 //@ before <<<while !tags.is_empty() && remain.len() != tags.len() {>>>
 //@ | let ghost g_orig = tags@;
 //@ | let ghost g_from = context.tr@.len() as int;
+//@ | let ghost mut g_first: Map<OrderIndex, Bind> = Map::empty();
+//@ | let ghost mut g_pass_no: nat = 0;
 //@ before <<<for pair in tags.iter() {>>>
 //@ | let ghost g_pass = context.tr@.len() as int;
 //@ | let ghost mut g_done: nat = 0;
+//@ before <<<let gen_result = t.generate_events(context);>>>
+//@ | proof { if !g_first.dom().contains(idx) { g_first = g_first.insert(idx, context.bind@); } }
+//@ | assert(g_first[idx] == context.bind@); // every evaluation of an element, first or repeated, sees the bindings in force at its place in the document @C15.retry.same_bindings
 //@ after <<<let (idx, t) = pair;>>>
 //@ | let ghost tr0 = context.tr@;
 //@ | let ghost rem0 = remain@;
@@ -215,6 +227,8 @@ pub proof fn lemma_no_limit_push(tr: Seq<Gen>, g: Gen, from: int)
 //@ |     assert(tr[tr.len() - 1].outcome is LimitErr);     // only a limit error may end the pass early  @C10.retry.gives_up_only_when_stalled
 //@ |     assert(!no_limit_err(tr, g_from));
 //@ | }
+//@ after <<<remain.clear();>>>
+//@ | proof { g_pass_no = g_pass_no + 1; }
 //@ after <<<if tags.len() == remain.len() {>>>
 //@ | proof {
 //@ |     if !context.in_specs {
@@ -231,6 +245,8 @@ pub proof fn lemma_no_limit_push(tr: Seq<Gen>, g: Gen, from: int)
 //@ |         assert(stalled(g_orig, tr, g_from));
 //@ |     }
 //@ | }
+//@ requires
+//@ - distinct_idx(old(tags)@)
 //@ ensures
 //@ - r is Err && !old(context).in_specs && no_limit_err(final(context).tr@, old(context).tr@.len() as int) ==> stalled(old(tags)@, final(context).tr@, old(context).tr@.len() as int)     @@C10.retry.gives_up_only_when_stalled
 //@ - final(context).in_specs == old(context).in_specs
@@ -248,6 +264,8 @@ pub proof fn lemma_no_limit_push(tr: Seq<Gen>, g: Gen, from: int)
 //@ - context.tr@.len() >= g_from
 //@ - g_from == old(context).tr@.len()
 //@ - g_orig == old(tags)@
+//@ - g_pass_no == 0 ==> g_first =~= Map::<OrderIndex, Bind>::empty() && tags@ == g_orig
+//@ - distinct_idx(g_orig)
 //@ - !context.in_specs ==> pending_covers(g_orig, tags@, context.tr@, g_from)
 //@ - !context.in_specs ==> no_limit_err(context.tr@, g_from)
 //@ - !context.in_specs ==> bbb.boxes() == old(bbb).boxes() + ok_boxes(context.tr@, g_from, context.tr@.len() as int)
@@ -267,6 +285,8 @@ pub proof fn lemma_no_limit_push(tr: Seq<Gen>, g: Gen, from: int)
 //@       || exists|m: int| 0 <= m < remain@.len() && (#[trigger] remain@[m]).1 == tags@[j].1
 //@ - !context.in_specs ==> no_limit_err(context.tr@, g_from)     @@C17.limit.final.loop @@C01.retry.limit_final.loop
 //@ - g_from == old(context).tr@.len() && g_orig == old(tags)@
+//@ - g_pass_no == 0 ==> tags@ == g_orig && distinct_idx(g_orig)
+//@ - g_pass_no == 0 ==> forall|k: int| it.index@ <= k < tags@.len() ==> !g_first.dom().contains((#[trigger] tags@[k]).0)
 //@ - g_from <= g_pass && context.tr@.len() == g_pass + it.index@
 //@ - forall|j: int| 0 <= j < it.index@ ==> (#[trigger] context.tr@[g_pass + j]).tag == tags@[j].1
 //@ - !context.in_specs ==> remain@.len() + g_done == it.index@
